@@ -34,6 +34,12 @@ func vsymMalloryRules(variant int) []acl.PrincipalRules {
 			{Action: acl.ActionAny, Resource: acl.ResourceTopic, Name: "other*"},
 			{Action: acl.ActionAny, Resource: acl.ResourceGroup, Name: "other*"},
 		}}}
+	case 5:
+		// the principal is listed twice: an entry that denies everything, then one with allow rules only
+		return []acl.PrincipalRules{alice,
+			{Name: "mallory", Deny: []acl.Rule{{Action: acl.ActionAny, Resource: acl.ResourceAny, Name: "*"}}},
+			{Name: "mallory", Allow: []acl.Rule{{Action: acl.ActionAny, Resource: acl.ResourceAny, Name: "*"}}},
+		}
 	}
 	// exact rules for names that differ from the targets only in letter case (names are case-sensitive)
 	return []acl.PrincipalRules{alice, {Name: "mallory", Allow: []acl.Rule{
@@ -286,7 +292,7 @@ func vsymRequestFor(api int, topic string, memberID string, gen int32) kmsg.Requ
 func VsymC24_Unauthorized() {
 	api := vsym_Param("api")
 	b, mon := vsymNewMonBroker()
-	b.h.authorizer = acl.NewAuthorizer(acl.Config{Enabled: true, DefaultPolicy: "deny", Principals: vsymMalloryRules(vsym_Choose("mallory-rules", 5))})
+	b.h.authorizer = acl.NewAuthorizer(acl.Config{Enabled: true, DefaultPolicy: "deny", Principals: vsymMalloryRules(vsym_Choose("mallory-rules", 6))})
 	b.h.autoCreateTopics = vsym_Bool("auto-create")
 	// alice prepares state
 	pr := b.vsymCall("alice", vsymProduceReq(1, []vsymTP{{"t0", 0}}, []byte{1, 2, 3})).(*kmsg.ProduceResponse)
@@ -310,6 +316,10 @@ func VsymC24_Unauthorized() {
 		member, gen = "", 0
 	}
 	req := vsymRequestFor(api, topic, member, gen)
+	if api == 0 && vsym_Bool("acks-zero") {
+		// fire-and-forget produce: no reply is sent, the request must still change nothing
+		req = vsymProduceReq(0, []vsymTP{{topic, 0}}, []byte{9})
+	}
 	resp := b.vsymCall("mallory", req)
 	vsym_Reach("answered")
 	vsym_Assert(len(mon.mutations) == 0, "C24/unauthorized-request-mutates-no-metadata")
@@ -317,6 +327,10 @@ func VsymC24_Unauthorized() {
 	vsym_Assert(vsymTopicCount(b) == topicsBefore, "C24/unauthorized-request-creates-no-topic")
 	vsym_Assert(vsymGroupFingerprint(b) == groupBefore, "C24/unauthorized-request-changes-no-group")
 	vsym_Assert(len(b.s3.reads) == 0, "C24/unauthorized-request-reads-no-records")
+	if resp == nil {
+		vsym_Reach("no-reply")
+		return
+	}
 	codes, data := vsymAuthCodes(resp)
 	vsym_Assert(data == 0, "C24/unauthorized-reply-carries-no-data")
 	vsym_Assert(len(codes) > 0, "C24/reply-has-an-error-slot")
